@@ -113,6 +113,8 @@ def apply_faults(prog, faults):
             s['beh'] = 'discard_then_op'
     for f in sorted([f for f in faults if f['kind'] in INSERTS], key=lambda f: -f['at']):
         p['steps'].insert(f['at'], dict(INSERTS[f['kind']]))
+        if f['kind'] == 'op_raise' and p.get('ending_exc'):
+            p['steps'][f['at']]['exc'] = p['ending_exc']       # ordinary exceptions of several types
     for f in faults:
         if f['kind'] in ('extractor', 'extractor_odd'):
             p['extractor'] = f['mode']
@@ -323,5 +325,5 @@ def base_programs(max_steps=5):
     progs = PS.programs(values=V.small_values, max_steps=max_steps, threads=False,
                         in_behs=('ret', 'ret', 'ret', 'raise', 'nested'), out_behs=('ret', 'ret', 'raise'),
                         in_extra={'handler': st.sampled_from(['none', 'wrap'])},
-                        out_extra={'handler': st.sampled_from(['none', 'wrap'])})
+                        out_extra={'handler': st.sampled_from(['none', 'wrap'])}, ending_excs=V.ENDING_EXCS)
     return progs.filter(lambda p: len(p['steps']) <= max_steps + 1)
